@@ -10,8 +10,12 @@ Record case := mkCase
     cvh : list (Z * list Z);      (* repr id |-> hashFunc(repr+itoa(i)), i = 0 .. R-1 *)
     cops : list op;
     cprobes : list (Z * Z);       (* per probe: hashFunc(repr(v)), hashFunc(innerRepr(v)) *)
-    cgets : list (list Z) }.      (* observed Get per probe, before any op and after each op:
+    cgets : list (list Z);        (* observed Get per probe, before any op and after each op:
                                      value id | -1 none | -2 panic | -3 a value never added *)
+    cstrict : bool }.             (* evaluate the order clauses (history independence, moves) even
+                                     though the universe has collisions: used by the corpus
+                                     histories that exhibit the known finding
+                                     collision-bucket-insertion-order *)
 
 Fixpoint row (n : Z) (t : list (Z * list Z)) : list Z :=
   match t with
@@ -97,14 +101,30 @@ Definition better_min (acc : option (Z * Z)) (x : Z * Z) : option (Z * Z) :=
   | None => Some x
   end.
 
-Definition spec_get (t : list (Z * list Z)) (m : amap) (hp : Z) : Z :=
-  let vs := vnodes t m in
+Definition spec_get_vs (vs : list (Z * Z)) (hp : Z) : Z :=
   match fold_left (better_ge hp) vs None with
   | Some x => snd x
   | None => match fold_left better_min vs None with
             | Some x => snd x
             | None => -1
             end
+  end.
+Definition spec_get (t : list (Z * list Z)) (m : amap) (hp : Z) : Z := spec_get_vs (vnodes t m) hp.
+
+(* for EVERY hash, colliding or not: the answer is one of the owners of the first
+   virtual-node hash >= the key's hash (wrapping), and none iff there is no virtual node *)
+Definition succ_hash (vs : list (Z * Z)) (hp : Z) : option Z :=
+  match fold_left (better_ge hp) vs None with
+  | Some x => Some (fst x)
+  | None => match fold_left better_min vs None with
+            | Some x => Some (fst x)
+            | None => None
+            end
+  end.
+Definition owner_ok (vs : list (Z * Z)) (hp g : Z) : bool :=
+  match succ_hash vs hp with
+  | None => g =? -1
+  | Some k => existsb (fun x => (fst x =? k) && (snd x =? g)) vs
   end.
 
 (* distinct (node, index) pairs hash differently *)
@@ -129,25 +149,53 @@ Fixpoint forall2b {A B} (f : A -> B -> bool) (l1 : list A) (l2 : list B) : bool 
   | _, _ => false
   end.
 
-Definition step_ok (t : list (Z * list Z)) (cf : bool) (ps : list (Z * Z)) (m : amap) (gs : list Z) : bool :=
-  forall2b (fun p g => member_only m g && (if cf then g =? spec_get t m (fst p) else true)) ps gs.
+(* the node map up to order, members only: "the current set of nodes and their replica counts" *)
+Definition e_eqb (a b : Z * (Z * Z)) : bool :=
+  (fst a =? fst b) && (fst (snd a) =? fst (snd b)) && (snd (snd a) =? snd (snd b)).
+Fixpoint ins_e (e : Z * (Z * Z)) (l : amap) : amap :=
+  match l with
+  | [] => [e]
+  | y :: l' => if fst e <=? fst y then e :: l else y :: ins_e e l'
+  end.
+Definition canon_map (m : amap) : amap := fold_right ins_e [] (members m).
 
-Fixpoint hist_ok (t : list (Z * list Z)) (R : Z) (cf : bool) (ps : list (Z * Z))
-         (m : amap) (prev : list Z) (ops : list op) (obs : list (list Z)) : bool :=
+(* history independence on the observations themselves: whenever the node map is the
+   same as at an earlier moment of the history, every key is answered as it was then *)
+Definition seen_ok (seen : list (amap * list Z)) (cm : amap) (gs : list Z) : bool :=
+  forallb (fun p => if list_eqb e_eqb (fst p) cm then zs_eqb (snd p) gs else true) seen.
+
+Definition step_ok (t : list (Z * list Z)) (cf : bool) (ps : list (Z * Z)) (m : amap) (gs : list Z) : bool :=
+  let vs := vnodes t m in
+  forall2b (fun p g => member_only m g && owner_ok vs (fst p) g &&
+                       (if cf then g =? spec_get_vs vs (fst p) else true)) ps gs.
+
+(* [cf]: the universe is collision-free; [ord]: evaluate the order clauses *)
+Fixpoint hist_ok (t : list (Z * list Z)) (R : Z) (cf ord : bool) (ps : list (Z * Z))
+         (m : amap) (prev : list Z) (seen : list (amap * list Z))
+         (ops : list op) (obs : list (list Z)) : bool :=
   match ops, obs with
   | [], [] => true
   | o :: ops', gs :: obs' =>
     let m' := a_step R m o in
+    let cm := canon_map m' in
     step_ok t cf ps m' gs &&
-    (if cf then forall2b (moved_ok (op_repr o) m m') prev gs else true) &&
-    hist_ok t R cf ps m' gs ops' obs'
+    (if ord then forall2b (moved_ok (op_repr o) m m') prev gs && seen_ok seen cm gs else true) &&
+    hist_ok t R cf ord ps m' gs ((cm, gs) :: seen) ops' obs'
   | _, _ => false
+  end.
+
+(* clauses that hold for every hash function *)
+Definition core_ok (c : case) : bool :=
+  match cgets c with
+  | g0 :: obs => step_ok (cvh c) false (cprobes c) [] g0 &&
+                 hist_ok (cvh c) (cR c) false false (cprobes c) [] g0 [] (cops c) obs
+  | [] => false
   end.
 
 Definition prop_ok (c : case) : bool :=
   let cf := collision_free (cvh c) in
   match cgets c with
   | g0 :: obs => step_ok (cvh c) cf (cprobes c) [] g0 &&
-                 hist_ok (cvh c) (cR c) cf (cprobes c) [] g0 (cops c) obs
+                 hist_ok (cvh c) (cR c) cf (cf || cstrict c) (cprobes c) [] g0 [([], g0)] (cops c) obs
   | [] => false
   end.
